@@ -479,6 +479,10 @@ def run(F, rep):
     for o in sub.obligations:
         if o["rule"] == "C03-PRED":
             rep.ob("C02-PRED", o["instance"], o["ok"], detail=o["detail"], site=o["site"], key=o["key"].replace("C03-PRED", "C02-PRED"))
+    # LZ-diff text: the predicted reference position moves as the format says (+1 per literal, unchanged by an N-run, coded
+    # position + length after a match).  A change made consistently on both sides still round-trips in ragc but is not AGC.
+    from rules import c09
+    c09.pred_rules(F, rep, "C02-LZ")
     # collection varint thresholds
     cv = {k.rsplit("::", 1)[-1]: c.get("int") for k, c in F.consts.items() if k.startswith("ragc_common::collection::CollectionVarInt::")}
     rep.stat("collection_varint_consts", cv)
